@@ -1371,6 +1371,10 @@ class OperatorComp(Operator):
         if out is None:
             return self.left(self.right(x))
         else:
+            if self.right.is_functional:
+                # Functionals cannot be evaluated in-place
+                return self.left(self.right(x), out=out)
+
             tmp = (self.__tmp if self.__tmp is not None
                    else self.right.range.element())
             self.right(x, out=tmp)
